@@ -30,6 +30,7 @@ type Contract struct {
 	Name    string // e.g. "(*Access).CanCall", "(*wsConn).GetResource#2", "strings.IndexByte"
 	PkgPath string // package path of the contract file ("" for lib files)
 	File    *ast.File
+	PTypes  []ast.Expr
 	Params  []string // lib: parameter names
 	Results []string // lib: result names
 	Clauses []*Clause
@@ -74,7 +75,7 @@ var clauseKeywords = map[string]bool{
 	"requires": true, "ensures": true, "assigns": true, "loop": true, "callback": true,
 	"resolves": true, "trusted": true, "inline": true, "holds": true, "assert": true,
 	"decreases": true, "hint": true, "modular": true, "spawns": true, "noframe": true,
-	"safety": true,
+	"safety": true, "trigger": true,
 }
 
 var tagRe = regexp.MustCompile(`^\[([A-Z0-9, ]+)\]`)
@@ -101,6 +102,28 @@ func parseContractLines(lines []string, where []string, pkgPath string, file *as
 			last = nil
 			// header or directive
 			switch head {
+			case "lemma":
+				// lemma NAME(p T, q U)
+				rest := strings.TrimSpace(trim[len(head):])
+				op := strings.Index(rest, "(")
+				cp := strings.LastIndex(rest, ")")
+				if op < 0 || cp < op {
+					return nil, fmt.Errorf("%s: bad lemma header %q", where[i], trim)
+				}
+				cur = &Contract{Kind: "lemma", PkgPath: pkgPath, File: file, Where: where[i], Name: strings.TrimSpace(rest[:op])}
+				for _, prm := range splitTop(rest[op+1 : cp]) {
+					f := strings.Fields(prm)
+					if len(f) != 2 {
+						return nil, fmt.Errorf("%s: bad lemma parameter %q", where[i], prm)
+					}
+					te, err := ParseSpecType(f[1])
+					if err != nil {
+						return nil, err
+					}
+					cur.Params = append(cur.Params, f[0])
+					cur.PTypes = append(cur.PTypes, te)
+				}
+				out = append(out, cur)
 			case "func", "closure", "lib", "invariant":
 				cur = &Contract{Kind: head, PkgPath: pkgPath, File: file, Where: where[i]}
 				rest := strings.TrimSpace(trim[len(head):])
@@ -215,6 +238,15 @@ func parseContractLines(lines []string, where []string, pkgPath string, file *as
 			sub := strings.SplitN(f[1], "[", 2)[0]
 			cl.Kind = "loop." + sub
 			rest = strings.TrimSpace(rest[strings.Index(rest, f[1])+len(sub):])
+			if sub == "let" {
+				// loop N let NAME = EXPR
+				eq := strings.Index(rest, "=")
+				if eq < 0 {
+					return nil, fmt.Errorf("%s: bad loop let %q", where[i], trim)
+				}
+				cl.Param = strings.TrimSpace(rest[:eq])
+				rest = strings.TrimSpace(rest[eq+1:])
+			}
 			if m := tagRe.FindStringSubmatch(rest); m != nil {
 				for _, t := range strings.Split(m[1], ",") {
 					cl.Tags = append(cl.Tags, strings.TrimSpace(t))
